@@ -83,6 +83,14 @@ func numGenerated(env *runner.Env) int {
 	return 2000
 }
 
+// numFragHistories is the number of generated fragmented histories (each gives an as-built and a reshaped file).
+func numFragHistories(env *runner.Env) int {
+	if env.Tier == "thorough" {
+		return 20000
+	}
+	return 600
+}
+
 func init() {
 	runner.Register(&runner.Prop{
 		ID: "C08",
@@ -101,8 +109,10 @@ func init() {
 		Setup: setup,
 		// a case normally takes milliseconds; a data call that never returns in one mode is a difference between the modes
 		CaseCPUSec: 30, HangIsViolation: true,
-		NumCases: func(env *runner.Env) int { return len(corpus) + numGenerated(env) + len(giants) },
-		Run:      run,
+		NumCases: func(env *runner.Env) int {
+			return len(corpus) + numGenerated(env) + len(giants) + numFragHistories(env)
+		},
+		Run: run,
 		Finalize: func(a *runner.Agg) {
 			if a.Counters["files_corpus_compared"] == 0 {
 				a.Note("no repo test file was accepted by both decode modes")
@@ -132,13 +142,19 @@ func (s *slowReader) Read(p []byte) (int, error) {
 func (s *slowReader) Seek(off int64, whence int) (int64, error) { return s.r.Seek(off, whence) }
 
 type state struct {
-	c     *runner.Ctx
-	b     []byte
-	kind  string
-	name  string
-	rs    io.ReadSeeker
-	rsK   string
-	evals int64
+	c      *runner.Ctx
+	b      []byte
+	kind   string
+	name   string
+	rs     io.ReadSeeker
+	rsK    string
+	rsKind int
+	rd     *readers
+	flags  mp4.DecFileFlags
+	shape  string // generated fragmented files: as-built | reshaped
+	// lazy data calls per reader kind and function
+	rdCalls map[string]int64
+	evals   int64
 	// held are the most recent lazy ReadData results still in the caller's hands
 	held     [4]heldRead
 	heldNext int
@@ -151,6 +167,12 @@ type heldRead struct {
 
 func (s *state) detail(extra map[string]interface{}) map[string]interface{} {
 	d := map[string]interface{}{"file": s.name, "kind": s.kind, "file_len": len(s.b), "readseeker": s.rsK}
+	if s.flags != 0 {
+		d["dec_flags"] = int(s.flags)
+	}
+	if s.kind == "generated-frag" && len(s.b) <= 6000 {
+		d["file_hex"] = fmt.Sprintf("%x", s.b)
+	}
 	for k, v := range extra {
 		d[k] = v
 	}
@@ -158,7 +180,10 @@ func (s *state) detail(extra map[string]interface{}) map[string]interface{} {
 }
 
 func run(c *runner.Ctx, idx int) {
-	if k := idx - len(corpus) - numGenerated(c.Env); k >= 0 {
+	if k := idx - len(corpus) - numGenerated(c.Env); k >= len(giants) {
+		runFrag(c, k-len(giants))
+		return
+	} else if k >= 0 {
 		runGiant(c, giants[k])
 		return
 	}
@@ -201,23 +226,55 @@ func run(c *runner.Ctx, idx int) {
 		}
 		c.Seen("generated_layout", fmt.Sprintf("mdatFirst=%v large=%v", f.MdatFirst, f.LargeMdat))
 	}
-	if c.Rand.Chance(1, 3) {
-		s.rs, s.rsK = &slowReader{bytes.NewReader(s.b), c.Rand.Fork()}, "slow(1..5 bytes per Read)"
-	} else {
-		s.rs, s.rsK = bytes.NewReader(s.b), "bytes.Reader"
+	s.runFile()
+}
+
+// runFile picks the primary reader kind of the case and checks s.b.
+func (s *state) runFile() {
+	c := s.c
+	s.rd = newReaders(c, s.b)
+	defer s.rd.close()
+	s.rdCalls = map[string]int64{}
+	s.rsKind = readerWeights[c.Rand.Intn(len(readerWeights))]
+	if s.rs = s.rd.get(s.rsKind); s.rs == nil {
+		c.Count("scratch_file_unavailable", 1)
+		s.rsKind = rkBytes
+		s.rs = s.rd.get(rkBytes)
 	}
+	s.rsK = readerKindNames[s.rsKind]
 	c.Seen("readseeker", s.rsK)
 	s.check()
+	for k, n := range s.rdCalls {
+		c.Count("reader:"+k, n)
+	}
 	c.Evals(s.evals)
+}
+
+// lazyDecodeReader is the reader the lazy DecodeFile reads from: the case's
+// reader, rewound (the slow reader is used for data calls only).
+func (s *state) lazyDecodeReader() io.ReadSeeker {
+	if s.rsKind == rkSlow {
+		return bytes.NewReader(s.b)
+	}
+	_, _ = s.rs.Seek(0, io.SeekStart)
+	return s.rs
+}
+
+func (s *state) decodeBoth() (fm, fl *mp4.File, em, el error, pm, pl *runner.PanicInfo) {
+	c := s.c
+	pm = c.Guard(func() { fm, em = mp4.DecodeFile(bytes.NewReader(s.b), mp4.WithDecodeFlags(s.flags)) })
+	rs := s.lazyDecodeReader()
+	pl = c.Guard(func() {
+		fl, el = mp4.DecodeFile(rs, mp4.WithDecodeMode(mp4.DecModeLazyMdat), mp4.WithDecodeFlags(s.flags))
+	})
+	s.evals += 2
+	return
 }
 
 func (s *state) check() {
 	c, b := s.c, s.b
-	var fm, fl *mp4.File
-	var em, el error
-	pm := c.Guard(func() { fm, em = mp4.DecodeFile(bytes.NewReader(b)) })
-	pl := c.Guard(func() { fl, el = mp4.DecodeFile(bytes.NewReader(b), mp4.WithDecodeMode(mp4.DecModeLazyMdat)) })
-	s.evals += 2
+	fm, fl, em, el, pm, pl := s.decodeBoth()
+	c.Seen("lazy_decode_reader", map[bool]string{true: "bytes.Reader (slow reader case)", false: s.rsK}[s.rsKind == rkSlow])
 	if pm != nil || pl != nil {
 		// crashes of the decoder on repo files belong to C04; here only a difference matters
 		if (pm != nil) != (pl != nil) {
@@ -338,6 +395,12 @@ func (s *state) check() {
 	if !frag && fm.Moov != nil && fm.Mdat != nil && fl.Mdat != nil {
 		s.checkSamples(fm, fl)
 	}
+	// ---- whole-file and box-level encodes in both modes ----
+	s.checkEncodes(fm, fl, frag)
+	// ---- sample access in fragments ----
+	if frag {
+		s.checkFragSamples(fm, fl)
+	}
 	if compared {
 		c.Nontrivial(runner.Hash64(b))
 	}
@@ -390,6 +453,9 @@ func (s *state) dataCall(mode, fn string, m *mp4.MdatBox, rs io.ReadSeeker, star
 	})
 	s.evals++
 	c.Count("call:"+mode+"/"+fn, 1)
+	if mode == "lazy" {
+		s.rdCalls[s.rsK+" / "+fn]++
+	}
 	det := func() map[string]interface{} {
 		return s.detail(map[string]interface{}{"mode": mode, "function": fn, "start": start, "size": size, "payload_start": int(m.PayloadAbsoluteOffset()), "range_class": cls, "large_size": m.LargeSize})
 	}
@@ -554,6 +620,33 @@ func (s *state) checkMdat(mi int, mm, ml *mp4.MdatBox, nd *boxwalk.Node) bool {
 		s.dataCall("lazy", "ReadData", ml, s.rs, r.start, r.size, cls, true)
 		s.dataCall("lazy", "CopyData", ml, s.rs, r.start, r.size, cls, true)
 	}
+	// ---- every other reader kind on a few ranges of the same lazily decoded box ----
+	if plen > 0 {
+		var few []rg
+		fset := map[rg]bool{}
+		addF := func(st, en int) {
+			if st >= ps && en <= pe && en > st && !fset[rg{st, en - st}] {
+				fset[rg{st, en - st}] = true
+				few = append(few, rg{st, en - st})
+			}
+		}
+		addF(ps, pe)
+		addF(ps, ps+1)
+		addF(pe-1, pe)
+		addF(ps+1, pe)
+		addF(ps, pe-1)
+		for i := 0; i < 3; i++ {
+			st := ps + c.Rand.Intn(plen)
+			addF(st, st+1+c.Rand.Intn(pe-st))
+		}
+		s.withOtherReaders(func() {
+			for _, r := range few {
+				cls := rangeClass(r.start, r.size, ps, pe)
+				s.dataCall("lazy", "ReadData", ml, s.rs, r.start, r.size, cls, true)
+				s.dataCall("lazy", "CopyData", ml, s.rs, r.start, r.size, cls, true)
+			}
+		})
+	}
 	// outside the payload
 	for _, r := range []rg{{ps - 1, 1}, {ps - 1, 2}, {pe, 1}, {pe - 1, 2}, {0, 4}, {len(b) - 1, 2}, {ps, plen + 1}, {len(b), 1}} {
 		if r.start < 0 || r.size < 1 || (r.start >= ps && r.start+r.size <= pe) {
@@ -669,6 +762,37 @@ func (s *state) checkSamples(fm, fl *mp4.File) {
 			s.copySamples("memory", fm, tm, nil, a, z, 0, want, icls, tr)
 			s.copySamples("memory", fm, tm, s.rs, a, z, 7, want, icls, tr)
 		}
+		// every other reader kind: all samples, the last sample, the first sample
+		zeroAtEOF := n > 0 && tr.Samples[n-1].Size == 0 && int(tr.Samples[n-1].Offset) == len(b)
+		if !zeroAtEOF {
+			s.withOtherReaders(func() {
+				for _, iv := range [][2]int{{1, n}, {n, n}, {1, 1}} {
+					want, _ := tr.IntervalBytes(b, iv[0], iv[1])
+					for _, wsN := range []int{0, 7, len(want) + 5} {
+						s.copySamples("lazy", fl, tl, s.rs, iv[0], iv[1], wsN, want, "other-reader-kinds", tr)
+					}
+				}
+			})
+		}
+	}
+}
+
+// withOtherReaders runs f once for every reader kind except the primary one of
+// the case, with s.rs/s.rsK switched to it.
+func (s *state) withOtherReaders(f func()) {
+	rs, k, name := s.rs, s.rsKind, s.rsK
+	defer func() { s.rs, s.rsKind, s.rsK = rs, k, name }()
+	for kind := 0; kind < nReaderKinds; kind++ {
+		if kind == k {
+			continue
+		}
+		r := s.rd.get(kind)
+		if r == nil {
+			s.c.Count("scratch_file_unavailable", 1)
+			continue
+		}
+		s.rs, s.rsKind, s.rsK = r, kind, readerKindNames[kind]
+		f()
 	}
 }
 
@@ -693,6 +817,9 @@ func (s *state) copySamples(mode string, f *mp4.File, trak *mp4.TrakBox, rs io.R
 	pi := c.Guard(func() { err = f.CopySampleData(&w, rs, trak, uint32(a), uint32(z), ws) })
 	s.evals++
 	c.Count("call:"+mode+"/CopySampleData", 1)
+	if mode == "lazy" {
+		s.rdCalls[s.rsK+" / CopySampleData"]++
+	}
 	wc := wsClass(wsN, len(want))
 	c.Seen("work_buffer", mode+"/"+wc)
 	wk := "ws<data"
@@ -778,4 +905,3 @@ func (s *state) checkStretched(f *prog.File) {
 		}
 	}
 }
-
